@@ -224,7 +224,7 @@ Proof.
               split; [left; rewrite D8; apply in_or_app; right; now apply in_mk_reqs|]. repeat split; auto. lia.
         -- intros d Hd. rewrite Hdeps in Hd. apply Hdc, K8, Hd.
         -- intros d. rewrite Hdeps. apply K9.
-        -- rewrite Edisc. exact K10.
+        -- rewrite D10, D6, Edisc. exact K10.
         -- rewrite D10, HR. exact K11.
       * rewrite (D3 t0 Hn0) in Hy. destruct (T6 t0 y Hy) as [J1 J2 J3 J4 J5 J6 J7 J8 J9 J10 J11]. constructor.
         -- exact J1.
@@ -236,12 +236,13 @@ Proof.
         -- intros i z Hu0 Hi Hz. rewrite Hdeps. destruct (J7 i z Hu0 Hi Hz) as [(w & Hw1 & Hw2)|Hr]; [left; exists w; split; [now apply HU1|auto]|now right].
         -- intros d Hd. rewrite Hdeps in Hd. apply Hdc, J8, Hd.
         -- intros d. rewrite Hdeps. apply J9.
-        -- exact J10.
+        -- rewrite D10. exact J10.
         -- rewrite D10, HR. exact J11.
     + destruct T7 as [H|[(k & H)|[H|H]]]; [left; rewrite D8; apply in_or_app; now left|right; left; exists k; now rewrite D2| |].
       * right. right. left. now rewrite (in_progress_of_kind s s' root (HK root)).
       * right. right. right. now apply Hcurk.
-  - apply (BC_change rules F (fun _ => false) s s'); auto; try discriminate. intros k. rewrite D2. apply HC.
+  - apply (BC_change rules F (fun _ => false) s s'); auto; try discriminate; [intros k; rewrite D2; apply HC|].
+    intros y (r & Hu' & H1' & H2'). left. exists r. split; auto.
   - apply (BS_change rules env F rank (fun _ => false) x s s'); auto; try discriminate.
     + intros y [H|[(k & H)|(t0 & z & Hz & H)]]; [left; congruence|right; left; exists k; now rewrite <- D2|right; right].
       destruct (N.eq_dec t0 t) as [->|Hn0].
@@ -302,10 +303,11 @@ Proof.
       * intros d Hd. rewrite Hdeps in Hd. destruct (J8 d Hd) as [H|(r & Hr1 & Hr2 & Hr3)]; [left; now apply Hcurk|].
         destruct (O1' r Hr1) as [->|H]; [left; apply Hcurk; now rewrite <- Hr3|right; exists r; auto].
       * intros d. rewrite Hdeps. apply J9.
-      * now rewrite E5.
+      * rewrite Hft, E3, E5. exact J10.
       * rewrite Hft, HR. exact J11.
     + rewrite Hi, (in_progress_of_kind s s' root (HK root)). destruct T7 as [H|[(k & H)|[H|H]]]; auto; [right; left; exists k; now rewrite HR0|right; right; right; now apply Hcurk].
-  - apply (BC_change rules F (fun _ => false) s s'); auto; try discriminate. intros k. rewrite HR0. apply HC.
+  - apply (BC_change rules F (fun _ => false) s s'); auto; try discriminate; [intros k; rewrite HR0; apply HC|].
+    intros y (r & Hu' & H1' & H2'). left. exists r. split; auto. now apply HU.
   - apply (BS_change rules env F rank (fun _ => false) x s s'); auto; try discriminate.
     + intros y [H|[(k & H)|(t0 & z & Hz & H)]]; [left; congruence|right; left; exists k; now rewrite <- HR0|right; right].
       destruct (Hbw t0 z Hz) as (w & Hw & _ & _ & _ & _ & _ & Hd). exists t0, w. split; auto. now rewrite <- Hd.
